@@ -52,6 +52,8 @@ func main() {
 		seed := core.Seed()
 		fmt.Printf("VERIF_SEED=%d property=%s tier=%s\n", seed, id, tier)
 		switch id {
+		case "C13":
+			code = schedsim.CheckC13(schedsim.C13Options{Tier: tier, Seed: seed})
 		case "C14":
 			code = schedsim.CheckC14(schedsim.C14Options{Tier: tier, Seed: seed})
 		case "C15":
